@@ -27,8 +27,12 @@ CHECKS = {
         "executing the rest yields the same logs (actions, events, clocks, checkpoints, previous-hash links) and an "
         "observationally equal engine; proved by the invariant 'engine = of_logs(its logs)'. The hand-written engine model is "
         "executed in Coq against the play table recorded from real engines on the same resume scenarios and must reproduce "
-        "the implementation's logs; the resume experiment itself is also run on the implementation.",
-   note="Trusted: Coq kernel; hypotheses restore∘save=id and play is a function (exercised/checked on every run); the component "
+        "the implementation's logs; the resume experiment itself is also run on the implementation. For the concrete store of "
+        "simulate/base.py (ordered dict address -> entity, saved and restored entity by entity) restore(save s)=s is DERIVED from the "
+        "round trip of a single entity, and only from it (Props/C01_store.v: C01_store_roundtrip, _only_if, C01_resume_concrete_store); "
+        "a lossy entity serialiser provably breaks it (C01_lossy_entity_breaks_store).",
+   note="Trusted: Coq kernel; hypotheses parse(dump e)=e per entity (pydantic; checked on every recorded checkpoint, in memory and through "
+        "JSON transports) and play is a function (exercised/checked on every run); the component "
         "code, pydantic and hashlib enter only through the recorded play table; correspondence is sampled, not exhaustive.",
    technique="Coq proof (invariant + bisimulation) over a hand-written engine model + trace-driven correspondence in Coq",
    design="7 C01"),
